@@ -49,6 +49,7 @@ type FSOp struct {
 	N     int
 	Off   int
 	Tag   string
+	Thr   int // interpreted goroutine that issued the operation
 }
 
 type openFile struct {
@@ -111,6 +112,9 @@ func clean(p string) string {
 
 func (e *Env) log(op FSOp) {
 	op.Tag = e.tag
+	if e.it.sched != nil && e.it.sched.cur != nil {
+		op.Thr = e.it.sched.cur.id
+	}
 	e.ops = append(e.ops, op)
 }
 
